@@ -24,6 +24,9 @@ import (
 
 const verifDir = "/verif"
 
+// instrVersion is bumped whenever the overlay instrumenter changes what it generates.
+const instrVersion = "instr-1"
+
 // repoDir is /repo; VERIF_REPO points a run at a scratch worktree instead (used
 // only to try the checks against seeded changes without touching /repo; its
 // evidence, logs and replay files then go to outDir under /tmp, never to /verif).
@@ -199,11 +202,7 @@ func treeKey(pkg string) string {
 	var c Config
 	json.Unmarshal(b, &c)
 	fmt.Fprintf(h, "%v%v", c.YieldFiles, c.NoLockFiles)
-	if exe, err := os.Executable(); err == nil {
-		if st, err := os.Stat(exe); err == nil {
-			fmt.Fprintf(h, "%d", st.Size())
-		}
-	}
+	h.Write([]byte(instrVersion))
 	return hex.EncodeToString(h.Sum(nil))[:16]
 }
 
@@ -358,7 +357,9 @@ func pruneBuilds(keep string) {
 	}
 	sort.Slice(ks, func(i, j int) bool { return ks[i].t.After(ks[j].t) })
 	for i, k := range ks {
-		if i >= 10 {
+		// keep everything recent (several checks may be building and running at
+		// once); drop only builds that are both old and beyond the newest 40
+		if i >= 40 && time.Since(k.t) > 3*time.Hour {
 			os.RemoveAll(filepath.Join(root, k.name))
 		}
 	}
@@ -707,7 +708,7 @@ func runCheck(cfg *Config, chk *Check, tier string) int {
 			hashes[h] = struct{}{}
 		}
 		for k, v := range r.Counters {
-			if strings.HasPrefix(k, "max_") {
+			if strings.HasPrefix(k, "max_") || strings.HasSuffix(k, "_max") {
 				if v > counters[k] {
 					counters[k] = v
 				}
